@@ -6,7 +6,7 @@ From Coq Require Import ZArith Ascii String Bool List Lia.
 Import ListNotations.
 Require Import MD.Gen.CodecTables MD.Codec.Model MD.Codec.Proofs MD.Codec.RestartProofs.
 Require Import MD.Codec.XtcModel MD.Codec.XtcProofs MD.Codec.XtcFrameProofs MD.Codec.NumProofs MD.Codec.MdcrdProofs.
-Require Import MD.Codec.XtcBitsProofs MD.Codec.XtcQuantProofs MD.Codec.DcdModel MD.Codec.DcdProofs.
+Require Import MD.Codec.XtcBitsProofs MD.Codec.XtcLiftProofs MD.Codec.XtcQuantProofs MD.Codec.DcdModel MD.Codec.DcdProofs.
 Open Scope Z_scope.
 
 (* Python "%w.pf" % x followed by float(): for EVERY width, precision and binary number the reader gets
@@ -267,6 +267,19 @@ Theorem xtc_frame_roundtrip : forall cs p, xtc_encode cs = Some p ->
   xtc_decode (Z.of_nat (length cs)) p = Some cs.
 Proof. exact XtcFrameProofs.xtc_frame_roundtrip. Qed.
 Print Assumptions xtc_frame_roundtrip.
+
+(* the whole encoder run on the C buffer -- encodebits for the separate fields and the flag bits, encodeints as
+   bytes[] of the mixed-radix value sent byte by byte (zero padding or partial top byte), final flush -- yields
+   the same header and the same bytes as the abstract encoder, for every list of integer triples; so the round
+   trip holds for the byte string xdrfile's buffer manipulation produces *)
+Theorem c_buffer_encoder_eq : forall cs, c_xtc_encode cs = xtc_encode cs.
+Proof. exact XtcLiftProofs.c_xtc_encode_eq. Qed.
+Print Assumptions c_buffer_encoder_eq.
+
+Theorem xtc_c_buffer_roundtrip : forall cs p, c_xtc_encode cs = Some p ->
+  xtc_decode (Z.of_nat (length cs)) p = Some cs.
+Proof. exact XtcLiftProofs.xtc_c_buffer_roundtrip. Qed.
+Print Assumptions xtc_c_buffer_roundtrip.
 
 (* the quantisation itself: lint = (int)(float(x * 1000) +- 0.5 stored to a float).  For every binary number x
    whose product with the precision is a normal float32 (or zero), over the rationals:
